@@ -191,6 +191,14 @@ Proof.
   rewrite (ntt_core_eq w Hw p Hp H4p (iph * iph) (S k0) (om'_half w p Hp k0 ph iph Hphi Hinv) twi twsi_ok); [reflexivity | lia | apply tab_length|].
   intros idx Hidx. unfold BR. rewrite tab_nth by exact Hidx. pose proof (C (rev (S k0) idx) (rev_lt (S k0) idx)). lia.
 Qed.
+(* what core::ntt returns inside the inverse transform is canonical (the final multiplication by n^-1 invphi^i needs canonical operands) *)
+Theorem closed_inv_core_canonical y : canonical y -> Forall (fun v => 0 <= v < p) (ntt_core w p (S k0) twi (BR k0 y)).
+Proof.
+  intros [L C].
+  destruct (ntt_core_correct w Hw p Hp H4p (iph * iph) (S k0) (om'_half w p Hp k0 ph iph Hphi Hinv) twi twsi_ok (fun i => nth i (BR k0 y) 0) (BR k0 y)) as [Ln N]; [lia | apply tab_length | |].
+  - intros idx Hidx. split; [|reflexivity]. unfold BR. rewrite tab_nth by exact Hidx. pose proof (C (rev (S k0) idx) (rev_lt (S k0) idx)). lia.
+  - apply Forall_forall. intros v Hin. destruct (In_nth _ _ 0 Hin) as (j & Hj & <-). rewrite Ln in Hj. rewrite (N j Hj). apply Z.mod_pos_bound. exact Hp.
+Qed.
 End Closed.
 
 (* ---------- degree 1 (n = 1): both transforms are the identity, the product is a0*b0 mod p ---------- *)
